@@ -315,7 +315,7 @@ type inst struct {
 	log     []micro
 	drops   int
 	queue   []queued // events accepted and not yet announced (mirror of the channel's content)
-	cur     int   // announced and still without result
+	cur     int      // announced and still without result
 	curAt   time.Time
 	closing bool
 	dead    bool
@@ -572,7 +572,7 @@ func (in *inst) Observe() map[string]any {
 	in.st.mu.Unlock()
 	return map[string]any{"st": st, "conn": conn, "pend": pend,
 		"stats": map[string]any{"total": ms.TotalNTEs, "conn": ms.ConnectedNTEs, "disc": ms.DisconnectedNTEs, "pend": ms.PendingNTEs},
-		"rec": rec, "allocs": in.va.Stats().TotalAllocations, "qlen": in.chanLen(), "cur": cur, "mode": mode}
+		"rec":   rec, "allocs": in.va.Stats().TotalAllocations, "qlen": in.chanLen(), "cur": cur, "mode": mode}
 }
 
 var fpOpt = &core.FPOptions{
